@@ -68,6 +68,20 @@ def draw_payload(rng, prog, canon, sig, pnames):
     return b64(body.encode()), [[n, c] for n, c in zip(pnames, cts)], texts
 
 
+def payload_for_name(r, rng, prog, canon, name, info, pnames):
+    """Payload bytes as the generated builder encodes them, expected echoed args, builder arg texts.
+    For names whose methods disagree on `sv::payload(raw)` the encoding is whatever the builder chooses:
+    it is obtained from the builder itself (only the round trip is pinned)."""
+    if not info.get("mixed_raw"):
+        return draw_payload(rng, prog, canon, info["payload"], pnames)
+    raw = rand_bytes(rng)
+    texts = [dumps(b64(raw))]
+    o = r.call({"prog": prog["name"], "op": f"builder:{name}:wasm", "args": texts,
+                "recv": {"execute": {"contract_addr": "c", "msg": "", "funds": []}}})
+    sm = o["res"]["ok"]
+    return sm["payload"], [["payload", dumps(b64(raw))]], texts
+
+
 def wellformed_data(rng, prog, canon, m, allow_none=True):
     """(data b64 or None, expected echo text) for a success method's data mode."""
     mode = m["data"]
